@@ -5,10 +5,12 @@ with kind in {'ret', 'unwind'}.  The memory-safety of core itself is trusted; a 
 documented behaviour of the function on the abstract values of the slot interpreter.
 One line of justification per entry is kept in MODEL_DOC (printed into the evidence).
 """
+import json
 from .zone import Term, fresh
 from .state import (freeze, MOVED, UNIT, TRUE, FALSE, I, OPTION, RESULT, CFLOW, NONE, some)
 from . import slots
 from .slots import Unproven
+from .facts import ty_is_mu
 
 REGISTRY = {}
 MODEL_DOC = {}
@@ -1418,6 +1420,25 @@ def m_mu_as_ptr(E, st, fid, t, args, dest_ty):
     return ret(st, ('rawslot', tg[0], tg[1], t['callee']['name'].endswith('_mut_ptr')))
 
 
+@model(['core::ptr::mut_ptr::<impl *mut T>::cast', 'core::ptr::const_ptr::<impl *const T>::cast'],
+       'pointer cast; *MaybeUninit<T> -> *T is the same address (MaybeUninit is repr(transparent))')
+def m_ptr_cast(E, st, fid, t, args, dest_ty):
+    v = args[0]
+    if v[0] != 'rawslot':
+        return E.opaque_call(st, fid, t, args, dest_ty)
+    to = (dest_ty or {}).get('to') or {}
+    if v[3] == 'outer' and not ty_is_mu(to):
+        src_ty = None
+        # only the cast to the wrapped type itself is understood
+        rargs = t['callee'].get('rargs') or t['callee'].get('args') or []
+        if len(rargs) >= 1 and ty_is_mu(rargs[0]) and rargs[0].get('args') and \
+                json.dumps(rargs[0]['args'][0], sort_keys=True) == json.dumps(to, sort_keys=True):
+            return ret(st, ('rawslot', v[1], v[2], bool((dest_ty or {}).get('mut'))))
+        E.violate('MODEL', 'unmodelled', 'cast', 'raw slot pointer cast to an unrelated type')
+        return ret(st, ('opq', ('rawptr',)))
+    return ret(st, v)
+
+
 def _raw_target(E, st, v, prim):
     if v[0] == 'rawslot':
         return v[1], v[2]
@@ -1448,6 +1469,11 @@ def m_assume_init_value(E, st, fid, t, args, dest_ty):
         return ret(st, v[1])
     if v[0] == 'mu_copy':
         return ret(st, E.slot_read(st, v[1], v[2], 'assume_init'))
+    if v[0] == 'mu_uninit' and dest_ty and dest_ty.get('k') == 'array' and ty_is_mu(dest_ty.get('elem') or {}):
+        # MaybeUninit::<[MaybeUninit<_>; N]>::uninit().assume_init(): an array of uninitialised slots (the idiom
+        # the standard library documents for this purpose)
+        E.cover.add((E.chain[-1], 'assume_init'))
+        return ret(st, ('uninit_arr',))
     E.violate('MODEL', 'unmodelled', 'assume_init', 'assume_init() of a MaybeUninit value of unknown origin')
     return ret(st, ('opq', ('assume_init',)))
 
